@@ -427,6 +427,36 @@ func GenRichDecls(r *core.Rand, v *Vocab, o RichOpts) (D, map[string]int) {
 		g.Stats["template_ref_with_xpath_dynamic"] += 2
 		break
 	}
+	// a declaration that fails on some records, used once as somebody's xpath_dynamic (where a failure is not a record failure) and once,
+	// textually identical, as a regular field evaluated from the same cursor (where it is)
+	if r.Chance(1, 4) {
+		var d D
+		switch k := r.Intn(4); {
+		case k == 0 && len(v.Multi) > 0:
+			d = D{"xpath": v.Multi[r.Intn(len(v.Multi))]}
+		case k == 1 && o.FailFn:
+			d = D{"custom_func": D{"name": "vf_fail", "args": []interface{}{D{"xpath": v.Single[r.Intn(len(v.Single))]}}}}
+		case k == 2:
+			d = D{"external": "no_such_external"}
+		default:
+			d = D{"xpath": v.Single[r.Intn(len(v.Single))], "type": r.Pick("int", "float", "boolean")}
+		}
+		b, _ := json.Marshal(d)
+		var twin D
+		json.Unmarshal(b, &twin)
+		first, second := "adynowner", "zdyntwin"
+		if r.Chance(1, 3) {
+			first, second = "zdynowner", "adyntwin"
+		}
+		if r.Bool() {
+			obj[first] = D{"xpath_dynamic": d}
+		} else {
+			obj[first] = D{"array": []interface{}{D{"xpath_dynamic": d}}}
+		}
+		obj[second] = twin
+		_ = second
+		g.Stats["failing_xpath_dynamic_with_identical_twin"]++
+	}
 	// a function of constants only, gated by its own xpath (matches for some records, not for others)
 	if r.Chance(1, 3) {
 		gate := g.pickPath(v, r.Bool())
